@@ -1,5 +1,5 @@
 import TriompheModel.Props.C03Sched
-import TriompheModel.Model.Ops
+import TriompheModel.Proofs.HistInv
 /-!
 # C03 — mutable access only for a sole owner (history half) + schedule half (Props/C03Sched.lean)
 
@@ -50,6 +50,71 @@ theorem C03_thin_get_mut_decline (s : State) (src v : Nat) (t : HV) (acc : Strin
     (hu : Arc.is_unique s.mem t = false) :
     runCb .thinWithArcMut src [.getMutWrite v] s t acc = (s, ok (acc ++ "mut=none;")) := by
   simp [runCb, hu]
+
+/-- **the verdict is "sole owner".**  In every state reachable by any history, for the handle in
+any slot: `is_unique` (an Acquire load compared with 1) is true iff that handle is the ONLY owning
+handle value of any kind — raw pointers given out by `into_raw`-style calls included. -/
+theorem C03_verdict_iff_sole_owner (ops : List Op) (i : Nat) (h : HV) (hl : lookup (run ops) i = some h) :
+    Arc.is_unique (run ops).mem h = true ↔ owners (run ops) h.blk = 1 := by
+  rw [C03_is_unique_def, (count_eq_owners (inv_run ops) hl).1]
+  simp
+
+/-- `get_mut` after any history: grants iff sole owner; when it declines NOTHING changes -/
+theorem C03_get_mut_iff (ops : List Op) (src v : Nat) (h : HV) (hl : lookup (run ops) src = some h)
+    (hk : h.kind = .arc) (hi : h.ty.elemsInit = true) :
+    (owners (run ops) h.blk = 1 → (step (run ops) (.getMut src v)).2 = ok "some") ∧
+    (owners (run ops) h.blk ≠ 1 → step (run ops) (.getMut src v) = (run ops, ok "none")) := by
+  constructor
+  · intro ho
+    have hu := (C03_verdict_iff_sole_owner ops src h hl).2 ho
+    rw [C03_get_mut_grant _ src v h hl hk hi hu]
+  · intro ho
+    have hu : Arc.is_unique (run ops).mem h = false := by
+      cases hb : Arc.is_unique (run ops).mem h with
+      | false => rfl
+      | true => exact absurd ((C03_verdict_iff_sole_owner ops src h hl).1 hb) ho
+    exact C03_get_mut_decline _ src v h hl hk hi hu
+
+/-- `try_unique` / `TryFrom<Arc<T>> for UniqueArc<T>` after any history -/
+theorem C03_try_unique_iff (ops : List Op) (src : Nat) (h : HV) (hl : lookup (run ops) src = some h)
+    (hk : h.kind = .arc) (hty : h.ty = .sized ∨ h.ty = .slice ∨ h.ty = .hs ∨ h.ty = .mu ∨ h.ty = .muSlice) :
+    (owners (run ops) h.blk = 1 → (step (run ops) (.tryUnique src)).2 = ok "ok") ∧
+    (owners (run ops) h.blk ≠ 1 → step (run ops) (.tryUnique src) = (run ops, ok "err")) := by
+  constructor
+  · intro ho
+    have hu := (C03_verdict_iff_sole_owner ops src h hl).2 ho
+    simp [step, hl, hk, hty, Arc.try_unique, hu]
+  · intro ho
+    have hu : Arc.is_unique (run ops).mem h = false := by
+      cases hb : Arc.is_unique (run ops).mem h with
+      | false => rfl
+      | true => exact absurd ((C03_verdict_iff_sole_owner ops src h hl).1 hb) ho
+    exact C03_try_unique_decline _ src h hl hk hty hu
+
+/-- `try_unwrap` after any history -/
+theorem C03_try_unwrap_iff (ops : List Op) (src : Nat) (h : HV) (hl : lookup (run ops) src = some h)
+    (hk : h.kind = .arc) (hty : h.ty = .sized) :
+    (owners (run ops) h.blk ≠ 1 → step (run ops) (.tryUnwrap src) = (run ops, ok "err")) := by
+  intro ho
+  have hu : Arc.is_unique (run ops).mem h = false := by
+    cases hb : Arc.is_unique (run ops).mem h with
+    | false => rfl
+    | true => exact absurd ((C03_verdict_iff_sole_owner ops src h hl).1 hb) ho
+  exact C03_try_unwrap_decline _ src h hl hk hty hu
+
+/-- the deprecated `Arc::write` / `as_mut_slice`: panics iff another owner exists -/
+theorem C03_deprecated_write_iff (ops : List Op) (src i : Nat) (v : Item) (h : HV)
+    (hl : lookup (run ops) src = some h) (hk : h.kind = .arc) (hty : h.ty = .mu ∨ h.ty = .muSlice)
+    (hi : i < viewLen (run ops).mem h) :
+    ((step (run ops) (.writeSlot src i v)).2.status = "panic:not-unique" ↔ owners (run ops) h.blk ≠ 1) := by
+  have hv := C03_verdict_iff_sole_owner ops src h hl
+  cases hb : Arc.is_unique (run ops).mem h with
+  | false =>
+    have : owners (run ops) h.blk ≠ 1 := fun ho => by rw [hv.2 ho] at hb; cases hb
+    rcases hty with hty | hty <;> simp [step, hl, hk, hty, hi, hb, panicked, this]
+  | true =>
+    have : owners (run ops) h.blk = 1 := hv.1 hb
+    rcases hty with hty | hty <;> simp [step, hl, hk, hty, hi, hb, ok, this]
 
 end C03H
 end M1
